@@ -442,19 +442,22 @@ Lemma init_mode_INV s : GG s -> INV (init_mode s) /\ width (init_mode s) = width
   /\ barvis (init_mode s) = barvis s.
 Proof.
   intros H. unfold init_mode.
-  destruct (redraw_bar_GG s H) as (I1&I2&I3&I4&I5&I6&I7&I8&I9&I10&I11).
-  set (s1 := redraw_bar s) in *.
-  set (s2 := if bot s1 =? height s1 then set_area s1 1 (height s1) true else unset_area s1).
-  assert (H2 : GG s2 /\ width s2 = width s1 /\ height s2 = height s1 /\ barvis s2 = barvis s1 /\ top s2 = 1).
-  { unfold s2. pose proof I1 as [(G1&G2&G3&G4&G5&G6) Hgr]. dif.
+  set (s2 := if bot s =? height s then set_area s 1 (height s) true else unset_area s).
+  assert (H2 : GG s2 /\ width s2 = width s /\ height s2 = height s /\ barvis s2 = barvis s /\ top s2 = 1).
+  { unfold s2. pose proof H as [(G1&G2&G3&G4&G5&G6) Hgr]. dif.
     - exfalso. lia.
     - split; [|setters; proj; auto]. split; [|revert Hgr; unf; setters; proj; auto].
       unf. unfold geom_okc. setters. proj. repeat split; try lia. }
   destruct H2 as (H2 & K1 & K2 & K3 & K4).
   pose proof (set_pos_env s2 (top s2) 1 true) as (P1&P2&P3&P4&P5&P6&P7&P8).
-  clearbody s2 s1.
-  split.
-  - apply set_pos_INV; [exact H2|]. destruct H2 as [(_&Hw2&_) _]. clear - Hw2. lia.
+  assert (H3 : INV (set_pos s2 (top s2) 1 true)).
+  { clearbody s2. apply set_pos_INV; [exact H2|]. destruct H2 as [(_&Hw2&_) _]. clear - Hw2. lia. }
+  set (s3 := set_pos s2 (top s2) 1 true) in *.
+  destruct H3 as [H3 [Hr3 Hc3]].
+  destruct (redraw_bar_GG s3 H3) as (I1&I2&I3&I4&I5&I6&I7&I8&I9&I10&I11).
+  clearbody s3 s2.
+  split; [split; [exact I1|]|].
+  - unf. unfold in_screenc in *. rewrite I2, I3, I7, I8. split; assumption.
   - repeat split; congruence.
 Qed.
 
